@@ -198,6 +198,13 @@ class Module:
                 if 'file' in sd and fname == '?':
                     fd = self._m(sd['file'])
                     fname = fd.get('filename', '?')
+                    d_ = fd.get('directory', '')
+                    if not fname.startswith('/') and d_:
+                        fname = d_.rstrip('/') + '/' + fname
+                    if '/harness/' in fname:
+                        fname = 'harness/' + fname.split('/harness/', 1)[1]
+                    elif '/library/' in fname:
+                        fname = 'library/' + fname.split('/library/', 1)[1]
                 if sd.get('_kind') == 'DISubprogram':
                     fn = sd.get('name', '')
                     break
